@@ -644,7 +644,7 @@ func (fr *frame) doGo(x *ssa.Go, st *state) {
 // read the heap, take or return non-value data, or have several results are always inlined.
 func (fr *frame) pureCall(callee *ssa.Function, c *ssa.CallCommon, args []T, cl *closureVal, st *state, pos string) []T {
 	vc := fr.vc
-	if cl != nil || callee.Signature.Results().Len() != 1 || len(callee.FreeVars) > 0 || vc.pureHeapDep[callee] {
+	if cl != nil || callee.Signature.Results().Len() != 1 || len(callee.FreeVars) > 0 || vc.pureHeapDep[callee] || isSmallFn(callee, 0) {
 		return fr.inlineCall(callee, c, args, cl, st, pos)
 	}
 	for _, a := range args {
@@ -712,4 +712,48 @@ func (fr *frame) pureCall(callee *ssa.Function, c *ssa.CallCommon, args []T, cl 
 	vc.cmdAlt[len(vc.cmds)] = fmt.Sprintf("(define-fun %s () %s %s)", n, rs, res[0].S)
 	vc.emit(fmt.Sprintf("(define-fun %s () %s %s)", n, rs, app))
 	return []T{{n, rs, rt}}
+}
+
+// isSmallFn: accessors, constructors and similar one-block functions are always inlined (also under
+// binders), so that quantified facts about them stay connected to their definition.
+func isSmallFn(fn *ssa.Function, depth int) bool {
+	if len(fn.Blocks) != 1 || depth > 2 {
+		return false
+	}
+	cnt := 0
+	for _, in := range fn.Blocks[0].Instrs {
+		if _, ok := in.(*ssa.DebugRef); !ok {
+			cnt++
+		}
+	}
+	if cnt > 30 {
+		return false
+	}
+	for _, in := range fn.Blocks[0].Instrs {
+		switch x := in.(type) {
+		case *ssa.Call:
+			callee := x.Common().StaticCallee()
+			if callee == nil {
+				if _, ok := x.Common().Value.(*ssa.Builtin); ok {
+					continue
+				}
+				return false
+			}
+			if _, ok := stdSpecs[stdName(callee)]; ok {
+				if stdName(callee) == "math.Sqrt" {
+					return false
+				}
+				continue
+			}
+			if !isSmallFn(callee, depth+1) {
+				return false
+			}
+		case *ssa.BinOp:
+			if x.Op.String() == "*" && isFloat(x.Type()) && depth >= 0 {
+				// products of reals stay behind a function symbol unless the function is a plain accessor
+				return false
+			}
+		}
+	}
+	return true
 }
